@@ -267,6 +267,8 @@ class LiteralProvider(LoaderProvider, DumperProvider):
         bytes_loader: Loader[bytes],
     ) -> Loader:
         enum_cases = tuple(arg for arg in cases if isinstance(arg, Enum))
+        allowed_values = self._get_allowed_values_collection(cases)
+        literal_loader: Loader
         if strict_coercion and any(isinstance(arg, bool) or _is_exact_zero_or_one(arg) for arg in cases):
             allowed_values_with_types = self._get_allowed_values_collection(
                 [(type(el), el) for el in cases],
@@ -281,21 +283,17 @@ class LiteralProvider(LoaderProvider, DumperProvider):
                     pass
                 raise BadVariantLoadError(allowed_values_repr, data)
 
-            return self._get_literal_loader_with_enum(
-                literal_loader_sc,
-                enum_loaders,
-                enum_cases,
-            )
+            literal_loader = literal_loader_sc
+        else:
+            def literal_loader_non_sc(data):
+                try:
+                    if data in allowed_values:
+                        return data
+                except (TypeError, ArithmeticError):  # unhashable or incomparable (signaling NaN) data can not be one of the cases
+                    pass
+                raise BadVariantLoadError(allowed_values_repr, data)
 
-        allowed_values = self._get_allowed_values_collection(cases)
-
-        def literal_loader(data):
-            try:
-                if data in allowed_values:
-                    return data
-            except (TypeError, ArithmeticError):  # unhashable or incomparable (signaling NaN) data can not be one of the cases
-                pass
-            raise BadVariantLoadError(allowed_values_repr, data)
+            literal_loader = literal_loader_non_sc
 
         if bytes_cases and not enum_loaders:
             return self._get_literal_loader_with_bytes(literal_loader, allowed_values, bytes_loader)
